@@ -71,6 +71,10 @@ func guessType(ft reflect.Type, f *field) error {
 }
 
 func getStructDesc(tt reflect.Type) (*structDesc, error) {
+	if tt.Kind() != reflect.Struct {
+		return nil, errors.Errorf("unsupported type %s, struct expected", tt.String())
+	}
+
 	res := &structDesc{}
 
 	for i := 0; i < tt.NumField(); i++ {
